@@ -5,6 +5,7 @@ import json
 import os
 import random
 import sys
+import threading
 import time
 import traceback
 
@@ -79,7 +80,62 @@ def run_check(prop, tier, seed):
     broken = []              # descriptions of broken proof / tie
     level = getattr(mod, 'LEVEL', 'proof')
 
+    # ---- watchdog: a check never hangs.  When the implementation under test blocks a thread of the harness for good
+    #      (e.g. a changed library thread that waits for a queue nobody fills), the steps below never return; after the
+    #      wall limit this thread reports what was running, writes replay + evidence and ends the process with exit 1.
+    stage = {'name': 'start', 'proof': None}
+    limit = float(os.environ.get('VERIF_WALL_LIMIT') or (7200 if tier == 'thorough' else 1500))
+    done = threading.Event()
+
+    def _watchdog():
+        if done.wait(limit):
+            return
+        import faulthandler
+        import io
+        try:
+            buf = open(os.path.join(VERIF, '.build', 'watchdog-%s.txt' % prop), 'w+')
+            faulthandler.dump_traceback(file=buf, all_threads=True)
+            buf.seek(0)
+            stacks = buf.read()[-6000:]
+            buf.close()
+        except Exception as e:      # noqa
+            stacks = 'no stack dump: %r' % (e,)
+        pr = stage['proof'] or {'obligations': 0, 'discharged': 0, 'theorems': [], 'checker_cmd': '', 'files': []}
+        payload = {'property': prop, 'tier': tier, 'seed': seed, 'kind': 'broken_correspondence',
+                   'theorem_or_correspondence': '%s step of %s did not finish within %d s' % (stage['name'], prop, limit),
+                   'message': 'the check was still inside its %s step when the wall limit was reached: a thread of the '
+                              'implementation under test or of the harness is blocked. Thread stacks at that moment:\n%s'
+                              % (stage['name'], stacks),
+                   'case': None,
+                   'note': 'no input violating the property was isolated; the property is no longer shown to hold'}
+        path = write_replay(prop, payload)
+        evidence = {'property_id': prop, 'tier': tier, 'seed': seed, 'level': level,
+                    'coverage': {'obligations': pr['obligations'], 'discharged': pr['discharged'],
+                                 'checker_cmd': pr.get('checker_cmd', ''),
+                                 'trusted_base': KERNEL_TB + list(getattr(mod, 'TRUSTED_BASE', [])),
+                                 'theorems': pr.get('theorems', []), 'evaluations': 0, 'distinct_nontrivial': 0,
+                                 'rule': 'run aborted by the watchdog in step %s' % stage['name'],
+                                 'samples': ['(none: the %s step did not finish)' % stage['name']],
+                                 'broken': [{'kind': 'broken_correspondence', 'what': payload['theorem_or_correspondence']}],
+                                 'explanation': 'aborted by the watchdog after %d s' % limit},
+                    'assumptions': list(getattr(mod, 'ASSUMPTIONS', [])),
+                    'wall_s': round(time.time() - t0, 2), 'violations': 1}
+        evdir = (os.path.join(VERIF, 'evidence') if os.path.realpath(REPO) == '/repo'
+                 else os.path.join(VERIF, '.build', 'evidence-scratch'))
+        os.makedirs(evdir, exist_ok=True)
+        with open(os.path.join(evdir, prop + '.json'), 'w') as f:
+            json.dump(evidence, f, indent=1, sort_keys=True, default=repr)
+        sys.stdout.write('VIOLATION property=%s replay=%s no-failing-input-found\n' % (prop, path))
+        sys.stdout.write('%s tier=%s seed=%d obligations=%d discharged=%d tie_cases=0 oracle_cases=0 violations=1 known=0 '
+                         'wall=%.1fs (watchdog)\n' % (prop, tier, seed, pr['obligations'], pr['discharged'], time.time() - t0))
+        sys.stdout.flush()
+        os._exit(1)
+
+    wd = threading.Thread(target=_watchdog, name='verif-watchdog', daemon=True)
+    wd.start()
+
     # ---- 0. translator (T-tie): regenerate model files from /repo
+    stage['name'] = 'translator'
     gen_info = None
     if hasattr(mod, 'generate'):
         try:
@@ -89,6 +145,7 @@ def run_check(prop, tier, seed):
                            'message': ''.join(traceback.format_exception_only(type(e), e)).strip()[:1500]})
 
     # ---- 1. proof step
+    stage['name'] = 'proof'
     proof = {'obligations': 0, 'discharged': 0, 'theorems': [], 'errors': [], 'checker_cmd': '', 'files': []}
     translator_broken = any(b['kind'] == 'broken_translator' for b in broken)
     # when the translator fails closed, only the property files that do not depend on generated code are checked
@@ -133,6 +190,7 @@ def run_check(prop, tier, seed):
         broken.append({'kind': 'broken_theorem', 'what': 'undischarged obligations', 'message': canon(proof['theorems'])})
 
     # ---- 2. tie step (correspondence model <-> implementation)
+    stage['name'], stage['proof'] = 'tie', proof
     tie = {'evaluations': 0, 'distinct_nontrivial': 0, 'rule': '', 'samples': [], 'disagreements': []}
     try:
         tie.update(mod.tie(ctx) or {})
@@ -148,6 +206,7 @@ def run_check(prop, tier, seed):
     # ---- 3. oracle on the real code (property text stated on observables) — always run;
     #         it is the failure search when something above is broken
     orc = {'evaluations': 0, 'failures': []}
+    stage['name'] = 'oracle'
     try:
         orc.update(mod.oracle(ctx, deep=bool(broken)) or {})
     except Exception as e:
@@ -155,6 +214,8 @@ def run_check(prop, tier, seed):
                        'message': traceback.format_exc()[-1500:]})
 
     # ---- 4. verdict
+    stage['name'] = 'verdict'
+    done.set()
     known_open = {k['input_class']: k for k in known if k.get('status') == 'known'}
     reported_known = set()
     unlisted = []
